@@ -482,6 +482,47 @@ func checkC12(c *Check, p *Program) {
 				return pa.Root == app && pa.LastField() == aCmd
 			})
 			c.Decide(okGC, "C12.in", fnN+" only group commands surface", pos, "dominated by app.Command.IsGroupCommand() == true", "the send is not behind app.Command.IsGroupCommand(): other application codes surface")
+			// ... and nothing else decides: an indication surfaces *exactly* when the four conditions hold.  Every
+			// dominating condition that looks at the received message is one of the four.
+			var dependsOnMsg func(v ssa.Value, depth int) bool
+			dependsOnMsg = func(v ssa.Value, depth int) bool {
+				if v == nil || depth > 12 {
+					return false
+				}
+				if v == recvMsg || v == ind || (app != nil && v == app) {
+					return true
+				}
+				in, isIn := v.(ssa.Instruction)
+				if !isIn {
+					return false
+				}
+				if _, isPhi := v.(*ssa.Phi); isPhi && depth > 4 {
+					return false
+				}
+				for _, op := range in.Operands(nil) {
+					if *op != nil && dependsOnMsg(*op, depth+1) {
+						return true
+					}
+				}
+				return false
+			}
+			for _, f := range facts {
+				if !dependsOnMsg(f.X, 0) && !dependsOnMsg(f.Y, 0) {
+					continue
+				}
+				allowed := false
+				if t, ta, ok := assertOK(f); ok {
+					allowed = (isPtrToNamed(t, cemiPath, "LDataInd") && ta.X == recvMsg) || (isPtrToNamed(t, cemiPath, "AppData") && fromInd(ta.X, fData))
+				}
+				if call, ok := boolCallFact(f, true, isGA); ok && fromInd(call.Common().Args[0], fC2) {
+					allowed = true
+				}
+				if call, ok := boolCallFact(f, true, isGC); ok && app != nil {
+					pa := valuePath(stripAllConv(call.Common().Args[0]))
+					allowed = allowed || (pa.Root == app && pa.LastField() == aCmd)
+				}
+				c.Decide(allowed, "C12.in", fnN+" nothing else decides whether an indication surfaces", pos, "a condition on the received frame in front of the send is one of: L_Data.ind, application unit, group address, group command", "a further condition on the received frame ("+cmpString(f)+") stands in front of the send: group indications that fail it never surface, although they target a group address and carry a group command")
+			}
 			// event content
 			var ev *ssa.Alloc
 			if u, ok := s.X.(*ssa.UnOp); ok && u.Op == token.MUL {
@@ -692,4 +733,8 @@ func groupValidator(p *Program, v *ssa.Function, call *ssa.Call, wrapper *ssa.Fu
 		}
 	}
 	return ""
+}
+
+func cmpString(f Cmp) string {
+	return describe(f.X) + " " + f.Op.String() + " " + describe(f.Y)
 }
